@@ -19,6 +19,18 @@ pub const N_FNS: usize = 11;
 static ORIG_RUNS: [AtomicU64; N_FNS] = [const { AtomicU64::new(0) }; N_FNS];
 static EVALS: [AtomicU64; N_FNS] = [const { AtomicU64::new(0) }; N_FNS];
 static VAL: [AtomicU64; N_FNS] = [const { AtomicU64::new(0) }; N_FNS];
+/// != 0: every fake's value expression takes this many microseconds (a value that is computed,
+/// read from a file, ...), so that awaits on different executor threads overlap inside it
+static SLOW_US: AtomicU64 = AtomicU64::new(0);
+fn value_takes_a_while() {
+    let d = SLOW_US.load(SeqCst);
+    if d > 0 {
+        let t = std::time::Instant::now();
+        while t.elapsed() < std::time::Duration::from_micros(d) {
+            std::hint::spin_loop();
+        }
+    }
+}
 
 struct YieldOnce(bool);
 impl Future for YieldOnce {
@@ -235,6 +247,7 @@ macro_rules! ret {
         injectorpp::async_return!(
             {
                 EVALS[$i].fetch_add(1, SeqCst);
+                value_takes_a_while();
                 let v = VAL[$i].load(SeqCst) + $site * 1_000_000;
                 let f: fn(u64) -> $ty = $mk;
                 f(v)
@@ -284,6 +297,10 @@ pub enum AOp {
     /// Fake{i, v}, and function i awaited once at the earliest possible moment: when the library
     /// flushes the poll function's entry it has just patched (what a task on another thread can do)
     FakeAwaitedDuringInstall { i: u8, v: u32 },
+    /// two executor threads await functions i and j (possibly the same one) n times each at the
+    /// same time, while every value expression takes `slow_us` microseconds: awaits overlap
+    /// inside value expressions
+    Overlap { i: u8, j: u8, n: u8, slow_us: u16 },
 }
 
 #[derive(Serialize, Deserialize, Clone, Debug, Hash, PartialEq, Eq)]
@@ -407,6 +424,65 @@ pub fn execute(c: &AsyncCase) -> AsyncObs {
                 }
                 o.awaits.push(a);
             }
+            AOp::Overlap { i, j, n, slow_us } => {
+                let fns = [*i as usize % N_FNS, *j as usize % N_FNS];
+                let n = (*n as u32).clamp(2, 64);
+                let r0 = [ORIG_RUNS[fns[0]].load(SeqCst), ORIG_RUNS[fns[1]].load(SeqCst)];
+                let e0 = [EVALS[fns[0]].load(SeqCst), EVALS[fns[1]].load(SeqCst)];
+                crate::worker::phase("await-overlapping");
+                SLOW_US.store((*slow_us as u64).clamp(20, 400), SeqCst);
+                let barrier = std::sync::Barrier::new(2);
+                let mut recs: Vec<AwaitObs> = std::thread::scope(|s| {
+                    let hs: Vec<_> = (0..2usize)
+                        .map(|t| {
+                            let barrier = &barrier;
+                            let f = fns[t];
+                            s.spawn(move || {
+                                let mut a = AwaitObs { op: k, i: f, arg: 9, burst: n, thread: 1 + t as u8, ..Default::default() };
+                                barrier.wait();
+                                let res = std::panic::catch_unwind(|| {
+                                    let mut first: Option<(String, u32)> = None;
+                                    let (mut slow, mut other, mut first_slow) = (0u32, 0u32, None);
+                                    for x in 0..n {
+                                        let (v, p) = await_fn(f, 9);
+                                        if first.is_none() {
+                                            first = Some((v.clone(), p));
+                                        }
+                                        if p != first.as_ref().unwrap().1 {
+                                            slow += 1;
+                                            if first_slow.is_none() {
+                                                first_slow = Some(x);
+                                            }
+                                        }
+                                        if v != first.as_ref().unwrap().0 {
+                                            other += 1;
+                                        }
+                                    }
+                                    (first.unwrap(), slow, other, first_slow)
+                                });
+                                match res {
+                                    Ok(((v, p), slow, other, fs)) => {
+                                        a.value = v;
+                                        a.polls = p;
+                                        a.burst_slow = slow;
+                                        a.burst_other_values = other;
+                                        a.burst_first_slow = fs;
+                                    }
+                                    Err(_) => a.panicked = Some(crate::worker::last_panic()),
+                                }
+                                a
+                            })
+                        })
+                        .collect();
+                    hs.into_iter().map(|h| h.join().unwrap_or_else(|_| AwaitObs { panicked: Some("executor thread died".into()), ..Default::default() })).collect()
+                });
+                SLOW_US.store(0, SeqCst);
+                for (t, a) in recs.iter_mut().enumerate() {
+                    a.orig_runs_delta = ORIG_RUNS[fns[t]].load(SeqCst) - r0[t];
+                    a.evals_delta = EVALS[fns[t]].load(SeqCst) - e0[t];
+                }
+                o.awaits.extend(recs);
+            }
             AOp::Burst { i, n } => {
                 let i = *i as usize % N_FNS;
                 let n = (*n as u32).clamp(2, 600);
@@ -479,6 +555,7 @@ pub fn strategy() -> impl Strategy<Value = AsyncCase> {
         5 => (0u8..N_FNS as u8, any::<u16>(), 0u8..4).prop_map(|(i, arg, thread)| AOp::Await { i, arg, thread }),
         1 => (0u8..N_FNS as u8, prop_oneof![2 => 2u16..40, 2 => 120u16..300, 1 => 300u16..600]).prop_map(|(i, n)| AOp::Burst { i, n }),
         1 => prop_oneof![2 => Just(AOp::EndLifetime), 1 => Just(AOp::EndLifetimeUnwind)],
+        1 => (0u8..N_FNS as u8, 0u8..N_FNS as u8, 4u8..40, prop_oneof![Just(60u16), Just(150u16), 20u16..400]).prop_map(|(i, j, n, slow_us)| AOp::Overlap { i, j, n, slow_us }),
     ];
     (prop::collection::vec(op, 1..=24), 0u8..N_FNS as u8).prop_map(|(ops, focus)| {
         // concentrate on a window of 4 functions so that fakes and awaits meet
@@ -489,6 +566,7 @@ pub fn strategy() -> impl Strategy<Value = AsyncCase> {
                 AOp::FakeAwaitedDuringInstall { i, v } => AOp::FakeAwaitedDuringInstall { i: (focus + i % 4) % N_FNS as u8, v },
                 AOp::Await { i, arg, thread } => AOp::Await { i: (focus + i % 4) % N_FNS as u8, arg, thread },
                 AOp::Burst { i, n } => AOp::Burst { i: (focus + i % 4) % N_FNS as u8, n },
+                AOp::Overlap { i, j, n, slow_us } => AOp::Overlap { i: (focus + i % 4) % N_FNS as u8, j: (focus + j % 4) % N_FNS as u8, n, slow_us },
                 x => x,
             })
             .collect();
@@ -549,6 +627,7 @@ pub fn judge(rec: &mut Recorder, c: &AsyncCase, ex: Exec, _hello: &Value) -> Res
     let mut sibling_await = false;
     let mut big = false;
     let mut burst = false;
+    let mut overlap = false;
     let mut ai = 0;
     const SAME_OUT: [&[usize]; 3] = [&[1, 2, 10], &[5, 6], &[]];
     for (k, op) in ops.iter().enumerate() {
@@ -571,6 +650,46 @@ pub fn judge(rec: &mut Recorder, c: &AsyncCase, ex: Exec, _hello: &Value) -> Res
                 }
                 current = [None; N_FNS];
                 nfakes = [0; N_FNS];
+            }
+            AOp::Overlap { i, j, .. } => {
+                let fns = [*i as usize % N_FNS, *j as usize % N_FNS];
+                let same = fns[0] == fns[1];
+                for t in 0..2 {
+                    let f = fns[t];
+                    let a = &o.awaits[ai];
+                    ai += 1;
+                    let n = a.burst as u64;
+                    let total = if same { 2 * n } else { n };
+                    let ctx = |s: String| format!("op {k}: executor thread {} awaits fn{f} {n} times while another executor thread awaits fn{} at the same time: {s}; case {c:?}", t + 1, fns[1 - t]);
+                    if let Some(p) = &a.panicked {
+                        return rec.fail(&sig("await-panicked"), ctx(format!("panicked: {p}")));
+                    }
+                    match current[f] {
+                        Some((site, v)) => {
+                            let want = fake_repr(f, site, v);
+                            if a.polls != 1 || a.burst_slow != 0 {
+                                return rec.fail(&sig("faked-await-not-ready-on-first-poll/awaits-overlap-on-two-threads"), ctx(format!("{} of the awaits did not complete on their first poll (first such await: #{:?}; the first await took {} poll(s))", a.burst_slow, a.burst_first_slow, a.polls)));
+                            }
+                            if a.value != want || a.burst_other_values != 0 {
+                                return rec.fail(&sig("faked-await-wrong-value/awaits-overlap-on-two-threads"), ctx(format!("first await yielded {}, {} later ones something else; the fake yields {want}", a.value, a.burst_other_values)));
+                            }
+                            if a.orig_runs_delta != 0 {
+                                return rec.fail(&sig("original-body-ran-while-faked"), ctx(format!("original body ran {} time(s)", a.orig_runs_delta)));
+                            }
+                            if a.evals_delta != total {
+                                return rec.fail(&sig("value-not-evaluated-afresh/awaits-overlap-on-two-threads"), ctx(format!("the value expression was evaluated {} time(s) for {total} awaits", a.evals_delta)));
+                            }
+                            rec.class(if same { "awaits-overlap-on-two-threads/same-faked-function" } else if current[fns[1 - t]].is_some() { "awaits-overlap-on-two-threads/two-faked-functions" } else { "awaits-overlap-on-two-threads/faked-and-unfaked" });
+                            overlap = true;
+                        }
+                        None => {
+                            let want = orig_repr(f, 9);
+                            if a.value != want || a.polls != 2 || a.burst_slow != 0 || a.burst_other_values != 0 || a.orig_runs_delta != total || a.evals_delta != 0 {
+                                return rec.fail(&sig("unfaked-sibling-affected"), ctx(format!("unfaked function: first await {} in {} polls, {} awaits deviated, original ran {} times; original yields {want} in 2 polls each", a.value, a.polls, a.burst_slow + a.burst_other_values, a.orig_runs_delta)));
+                            }
+                        }
+                    }
+                }
             }
             AOp::Burst { i, .. } => {
                 let i = *i as usize % N_FNS;
@@ -656,7 +775,7 @@ pub fn judge(rec: &mut Recorder, c: &AsyncCase, ex: Exec, _hello: &Value) -> Res
     if burst {
         rec.class("burst>=120-awaits-of-one-installation");
     }
-    if sibling_await || refake || big || burst || lifetimes >= 2 {
+    if sibling_await || refake || big || burst || overlap || lifetimes >= 2 {
         rec.nontrivial(&c.ops);
     }
     Ok(())
